@@ -164,8 +164,13 @@ var wrongShapes = []string{`[]`, `[1,2]`, `"str"`, `5`, `-0.5e3`, `true`, `null`
 // sixteen) the release clause across serving rounds.
 func genC10(seed uint64, tier string) Scenario {
 	g := NewGen(seed, 0xC10A)
-	if g.IntN(16) == 0 {
+	switch g.IntN(32) {
+	case 0, 1:
 		return wrapMix("life", genRelease(g, "C10"))
+	case 2:
+		// the serving context ends (cancel, or a deadline that passes) under idle and
+		// mid-frame connections: they are released, nothing spins
+		return wrapMix("life", genServeCtx(g, "C10", tier))
 	}
 	return genC10Proto(seed, tier)
 }
